@@ -8,6 +8,7 @@ import (
 	"regexp"
 	"strings"
 	"sync"
+	"sync/atomic"
 	"time"
 
 	"github.com/lxzan/gws"
@@ -218,6 +219,39 @@ func runRacyScenario(args []string) {
 		_ = s.WriteClose(1000, nil)
 		wg.Wait()
 		drainAsync(s)
+	case "bc-two-clients": // ONE broadcaster serving two client-side connections at once: the shared frame is read-only
+		var bad int32
+		mk := func() *recorder {
+			h := newRecorder()
+			h.onMsg = func(c *gws.Conn, m *gws.Message) {
+				if !bytes.Equal(m.Bytes(), payload) {
+					atomic.AddInt32(&bad, 1)
+				}
+			}
+			return h
+		}
+		s1, c1, _, _, err := handshakePair(&gws.ServerOption{}, &gws.ClientOption{}, mk(), newRecorder())
+		mustOK(err)
+		s2, c2, _, _, err := handshakePair(&gws.ServerOption{}, &gws.ClientOption{}, mk(), newRecorder())
+		mustOK(err)
+		for _, x := range []*gws.Conn{s1, c1, s2, c2} {
+			go x.ReadLoop()
+		}
+		for i := 0; i < 300; i++ {
+			b := gws.NewBroadcaster(gws.OpcodeBinary, payload)
+			_ = b.Broadcast(c1)
+			_ = b.Broadcast(c2)
+			_ = b.Close()
+		}
+		drainAsync(c1)
+		drainAsync(c2)
+		time.Sleep(50 * time.Millisecond)
+		if atomic.LoadInt32(&bad) != 0 {
+			fmt.Fprintln(os.Stderr, "broadcast-payload-corrupted-on-the-wire")
+			return
+		}
+		_ = c1.WriteClose(1000, nil)
+		_ = c2.WriteClose(1000, nil)
 	case "session-first-use": // the very first uses of a connection's session storage, from several goroutines at once
 		s, c, _, _, err := handshakePair(&gws.ServerOption{}, &gws.ClientOption{}, newRecorder(), newRecorder())
 		mustOK(err)
@@ -275,7 +309,7 @@ func drainAsync(c *gws.Conn) {
 }
 
 func genRacy(g *Gen) {
-	for _, sc := range []string{"bc-vs-write", "client-file-vs-bc", "teardown-vs-writer", "mixed-writers", "parallel-handlers", "close-vs-writers", "session-first-use"} {
+	for _, sc := range []string{"bc-vs-write", "client-file-vs-bc", "teardown-vs-writer", "mixed-writers", "parallel-handlers", "close-vs-writers", "session-first-use", "bc-two-clients"} {
 		for i := 0; i < g.pick(1, 5); i++ {
 			g.Emit("racy %s %d", sc, i)
 		}
